@@ -999,8 +999,28 @@ func c07Calls(c *Ctx) {
 	c.Violations = keep
 }
 
+// c07Twin decides "a transaction the miner discards leaves no trace at all" on the chain world of C01: a twin
+// miner that is offered only the transactions the first miner packaged (same parent, instant, gas limit) must
+// produce the same block, whatever the first miner discarded or left out for lack of block gas (also in the
+// middle of a box). Only the twin clauses of that scenario count here, under C07 signatures.
+func c07Twin(c *Ctx) {
+	c.Var = "mixed"
+	c01Scenario(c)
+	c.Var = "twin"
+	var keep []Violation
+	for _, v := range c.Violations {
+		if strings.HasPrefix(v.Sig, "C01/twin/") {
+			v.Sig = "C07/discard/twin/" + strings.TrimPrefix(v.Sig, "C01/twin/")
+			keep = append(keep, v)
+		}
+	}
+	c.Violations = keep
+}
+
 func c07Scenario(c *Ctx) {
 	switch c.Var {
+	case "twin":
+		c07Twin(c)
 	case "redo":
 		c07Redo(c)
 	case "discard":
@@ -1015,14 +1035,14 @@ func c07Scenario(c *Ctx) {
 func init() {
 	Register(&PropDef{
 		ID:       "C07",
-		Variants: []string{"paths", "wild", "paths", "redo", "wild", "discard", "calls"},
+		Variants: []string{"paths", "wild", "paths", "redo", "wild", "discard", "calls", "twin"},
 		Scenario: c07Scenario,
 		Rule: "unit variants (paths/wild): 8-60 tape-generated operations on 2-5 accounts of a real account.Manager over the real store (genesis, optionally a committed block 1 " +
 			"built from 6-14 generated setters): every SafeAccount setter, Manager.AddEvent, interleaved getters, Snapshot (depth <= 8), RevertToSnapshot(innermost or any live id), " +
 			"writes after revert, (wild) Merge/Finalise anywhere; the photograph of a snapshot is either a full dump taken on the manager itself or the dump of a twin manager that " +
 			"replayed the same history; after the sequence the merged journal is RLP round-tripped and replayed with RebuildAll on the parent. A unit run is non-trivial when >=1 revert " +
 			"undid >=1 journal entry. redo variant: 1-3 blocks mined by the real assembler/tx processor, non-trivial when >=1 block with >=1 transaction was rebuilt. discard variant: " +
-			"non-trivial when the miner discarded >=1 transaction and packaged >=1. calls variant: the EVM world of C16 (see there), only its failed-call clauses. distinct = distinct event-log digests (operations and their results are logged)",
+			"non-trivial when the miner discarded >=1 transaction and packaged >=1. calls variant: the EVM world of C16 (see there), only its failed-call clauses. twin variant: the chain world of C01 (see there), only its twin-miner clauses. distinct = distinct event-log digests (operations and their results are logged)",
 		Real: []string{"chain/account (Manager, SafeAccount, Account, LogProcessor, change logs, log merging)", "chain/types change-log codec", "store (ChainDatabase, tries) on the simulated disk",
 			"redo/discard: chain/consensus BlockAssembler + chain/transaction TxProcessor + chain/vm via the block factory"},
 		Stub: []string{"callers of the account layer (operation sequences generated from the tape)"},
